@@ -862,6 +862,58 @@ fn data_only_packet(rng: &mut Rng, v9: bool, ids: &[u16]) -> Vec<u8> {
     o
 }
 
+/// Whatever a parser has been fed before, a conformant packet that defines a template and carries
+/// data for it, and a following data-only packet, decode exactly as sent and leave the definition
+/// in the cache ("latest definition wins" regardless of history).
+fn conformant_probe(rng: &mut Rng, sut: &mut Sut, pi: usize, st: &mut Stats) -> Result<(), Div> {
+    let id = rng.range(256, 65535) as u16;
+    let w2 = 1 + rng.below(4) as u16;
+    let prefix = |mut d: Div, what: &str| {
+        d.unit = format!("probe/{}/{}", what, d.unit);
+        d
+    };
+    if rng.chance(1, 2) {
+        let t = V9Tmpl { id, fields: vec![(1, 4), (2, w2), (8, 4)] };
+        let mk = |rng: &mut Rng, n: usize| V9FlowSet::Data { tmpl: t.clone(), records: (0..n).map(|_| vec![rng.bbytes(4), rng.bbytes(w2 as usize), rng.bbytes(4)]).collect(), padding: vec![] };
+        let d1 = mk(rng, 2);
+        let p1 = V9Pkt { count: 2, sys_up_time: 1, unix_secs: 2, seq: 3, source_id: 4, flowsets: vec![V9FlowSet::Template { templates: vec![t.clone()], padding: vec![] }, d1] };
+        let n2 = 1 + rng.usize(3);
+        let d2 = mk(rng, n2);
+        let p2 = V9Pkt { count: 1, sys_up_time: 1, unix_secs: 2, seq: 4, source_id: 4, flowsets: vec![d2] };
+        for p in [&p1, &p2] {
+            let res = sut.parse(pi, &p.wire());
+            match res.as_slice() {
+                [NetflowPacket::V9(g)] => check_v9(p, g, st).map_err(|d| prefix(d, "v9"))?,
+                r => return Err(div("probe/v9", "elements", format!("conformant V9 packet (template {} + data, then data) returned {:?} on a parser with a hostile history", id, r.iter().map(kind).collect::<Vec<_>>()))),
+            }
+        }
+        match sut.parsers[pi].v9_parser.templates.get(&id) {
+            Some(g) if model_v9_tmpl_eq(g, &t) => Ok(()),
+            _ => Err(div("probe/v9/cache", "entry", format!("template {} just received is not what the cache holds", id))),
+        }
+    } else {
+        let fields = vec![IpfixSpec { type_num: 1, len: 4, enterprise: None }, IpfixSpec { type_num: 2, len: w2, enterprise: None }, IpfixSpec { type_num: 8, len: 4, enterprise: None }];
+        let t = IpfixTmpl { id, fields: fields.clone() };
+        let mk = |rng: &mut Rng, n: usize| IpfixSet::Data { id, options: false, fields: fields.clone(), records: (0..n).map(|_| vec![Cell::fixed(rng.bbytes(4)), Cell::fixed(rng.bbytes(w2 as usize)), Cell::fixed(rng.bbytes(4))]).collect(), padding: vec![] };
+        let d1 = mk(rng, 2);
+        let p1 = IpfixMsg { export_time: 1, seq: 2, domain: 3, sets: vec![IpfixSet::Template { records: vec![t.clone()], padding: vec![] }, d1] };
+        let n2 = 1 + rng.usize(3);
+        let d2 = mk(rng, n2);
+        let p2 = IpfixMsg { export_time: 1, seq: 3, domain: 3, sets: vec![d2] };
+        for p in [&p1, &p2] {
+            let res = sut.parse(pi, &p.wire());
+            match res.as_slice() {
+                [NetflowPacket::IPFix(g)] => check_ipfix(p, g, st).map_err(|d| prefix(d, "ipfix"))?,
+                r => return Err(div("probe/ipfix", "elements", format!("conformant IPFIX message (template {} + data, then data) returned {:?} on a parser with a hostile history", id, r.iter().map(kind).collect::<Vec<_>>()))),
+            }
+        }
+        match sut.parsers[pi].ipfix_parser.templates.get(&id) {
+            Some(g) if g.template_id == id && model_ix_specs_eq(&g.fields, &fields) => Ok(()),
+            _ => Err(div("probe/ipfix/cache", "entry", format!("template {} just received is not what the cache holds", id))),
+        }
+    }
+}
+
 /// Hostile cache histories: templates of any shape (zero-length fields, unsupported widths,
 /// counts that disagree with the bytes), data that cannot be decoded, mutated packets. No model of
 /// what should be cached is attached; the universal clauses are decided: an id, once cached for a
@@ -932,6 +984,22 @@ fn c06_hostile_family(w: &mut W, rng: &mut Rng) {
             Ok(())
         })();
         if let Err(d) = verdict {
+            w.rep.violation(sig("C06", &d), &d, sut.replay_json());
+            return;
+        }
+        if rng.chance(1, 5) {
+            let mut st = Stats::default();
+            w.rep.count("hostile_family.probes", 1);
+            if let Err(d) = conformant_probe(rng, &mut sut, pi, &mut st) {
+                w.rep.violation(sig("C06", &d), &d, sut.replay_json());
+                return;
+            }
+        }
+    }
+    for pi in 0..np {
+        let mut st = Stats::default();
+        w.rep.count("hostile_family.probes", 1);
+        if let Err(d) = conformant_probe(rng, &mut sut, pi, &mut st) {
             w.rep.violation(sig("C06", &d), &d, sut.replay_json());
             return;
         }
